@@ -20,7 +20,7 @@ VERIF = os.path.dirname(os.path.dirname(os.path.abspath(__file__)))
 MUTANTS = {
     "C05": [
         ("patch:own-c05-recursive-enumeration",),
-        ("status-check-removed", "aldy/lpinterface.py", 'if status != "optimal":\n                return', 'if False:\n                return'),
+        ("status-check-removed", "aldy/lpinterface.py", 'if status != "optimal":\n                    return', 'if False:\n                    return'),
         ("verify-removed", "aldy/lpinterface.py", "if not self.model.VerifySolution(SOLVER_PRECISON, True):", "if False:"),
         ("getvalue-no-round", "aldy/lpinterface.py", "x = int(round(x))", "x = int(x)"),
         ("gap-test-loosened", "aldy/lpinterface.py", "if abs(obj - ub) >= SOLVER_PRECISON and obj > ub:", "if obj > ub + 0.75:"),
